@@ -29,7 +29,7 @@ type DescC19 struct {
 	Adj     uint64         `json:"pts_adjustment,omitempty"` // the signal time is split into pts_time + pts_adjustment this way (signals with a PTS)
 	Cancel  bool           `json:"cancel,omitempty"`         // segmentation_event_cancel_indicator set through the API (a decoded cancelled descriptor carries no type)
 	Rest    ref.SpliceDesc `json:"rest"`                     // other fields, varied freely
-	Decoded bool           `json:"decoded"` // build by decoding a reference encoding instead of the creation API
+	Decoded bool           `json:"decoded"`                  // build by decoding a reference encoding instead of the creation API
 }
 
 type CaseC19 struct {
